@@ -71,7 +71,7 @@ MUTANTS: List[Dict] = [
       """                        if b.jump_targets[0] == name:
                             b.jump_targets[0] = it
                         elif b.jump_targets[1] == name:
-                            b.jump_targets[1] = it""", ["STORE-7"], "revert fix 97cfca1"),
+                            b.jump_targets[1] = it""", ["STORE-10"], "revert fix 97cfca1"),
     M("rev-keep-entry", "breaking", AT,
       """            if name == "0":
                 continue
